@@ -149,7 +149,11 @@ func cmdTrace(outPath, metaPath string, seed int64, nscen int) int {
 					var req helpers.SizeGetter = mkReq(id, "spl", 1+grnd.Intn(2))
 					reqOf.Store(req, id)
 					rec.emit(Event{"ev": "Route", "r": id, "d": d, "h": h, "node": map[string]string{"spl": svc.GetNodeName()}})
-					p := svc.Request(req, modeNum(h))
+					p, pan := safeRequest(svc, req, modeNum(h))
+					if pan != "" {
+						rec.emit(Event{"ev": "Panic", "r": id, "k": "spl", "what": pan})
+						continue
+					}
 					x := &pw{node: svc.GetNodeName()}
 					pend.Store(id, x)
 					wg.Add(1)
@@ -231,9 +235,9 @@ func cmdTrace(outPath, metaPath string, seed int64, nscen int) int {
 			select {
 			case <-sv(n).runRet:
 				rec.emit(Event{"ev": "RunRet", "sv": svk(n)})
-			case <-time.After(waitT):
-				fmt.Fprintln(os.Stderr, "Run() did not return after Stop()")
-				return 2
+			case <-time.After(2 * time.Second):
+				// not a behaviour of the model: every worker is cancelled, Run() must return
+				rec.emit(Event{"ev": "RunStuck", "sv": svk(n)})
 			}
 		}
 		time.Sleep(20 * time.Millisecond)
